@@ -247,6 +247,8 @@ REFUSALS = [
     ('REJECT with -f/-F', {'fulltbl', 'fullspd', 'reject'}),
     ('yyclass without -+', {'C_plus_plus', 'yyclass'}),
     ('[ or ] in the prefix', {'prefix'}),
+    ('%option main with -+', {'do_main', 'C_plus_plus'}),                               # D44
+    ('%option main with the bison bridge', {'do_main', 'bison_bridge_lval', 'bison_bridge_lloc'}),  # D44
 ]
 
 def r4(ctx):
@@ -304,7 +306,7 @@ def run(ctx):
     rep.floor('C02.R1', 290, '114+96+91 tested symbols')
     rep.floor('C02.R2', 95, 'core variants (failures with one root cause share a key)')
     rep.floor('C02.R3', 8, '4 macros x 2 sibling skeletons')
-    rep.floor('C02.R4', 13, 'reference table of refusals')
+    rep.floor('C02.R4', 15, 'reference table of refusals')
     rep.floor('C02.R5', 10, 'language probes, with and without REJECT')
     rep.floor('C02.R6', 800, 'constant tables of the core variants and the language probes')
     rep.undecided += ['behavioural equality of the scanners across table representations, APIs and back ends (run-time quantity)',
